@@ -1,0 +1,106 @@
+//go:build verif
+
+package lru
+
+// Contracts for the deductive verifier in /verif (gocv). Comment-only file,
+// compiled only under the `verif` build tag.
+
+// ---- callbacks: assumed contracts (they do not re-enter the cache) ----
+// key mapping is a pure function
+//@ spec keyOf(f MapToInnerKeyF[V, K], v V) K = uninterpreted
+//@ assumed func (f MapToInnerKeyF[V, K]) call(v V) K
+//@   ensures r0 == keyOf(f, v)
+
+// create function: any result; ghost call counter
+//@ ghostfield CreatePoolElemF.calls int
+//@ assumed func (f CreatePoolElemF[K, V]) call(k K) (V, error)
+//@   modifies f.calls
+//@   ensures f.calls == old(f.calls) + 1
+
+// delete callback: ghost log of the (key, value) pairs it was called with
+//@ ghostfield OnDeleteElemF.dlen int
+//@ ghostfield OnDeleteElemF.dk seq[K]
+//@ ghostfield OnDeleteElemF.dv seq[V]
+//@ assumed func (f OnDeleteElemF[K, V]) call(k K, v V)
+//@   modifies f.dlen, f.dk, f.dv
+//@   ensures f.dlen == old(f.dlen) + 1 && f.dk[old(f.dlen)] == k && f.dv[old(f.dlen)] == v
+//@   ensures forall(i, int, i < old(f.dlen) ==> f.dk[i] == old(f.dk[i]) && f.dv[i] == old(f.dv[i]))
+
+// ---- ECache: representation invariant between calls (sequential use: nothing in flight) ----
+//@ pred (p *ECache[PK, K, V]) ok() = p != nil && p.items != nil && p.items.wf() && p.items.quiet() && p.maxSize >= 1 && len(p.items.vals) <= p.maxSize &&
+//@      p.inflight != nil && forall(j, K, !has(p.inflight, j)) && p.createNewF != nil && p.mapToInnerKeyF != nil &&
+//@      forall(j, K, has(p.items.vals, j) ==> keyOf(p.mapToInnerKeyF, p.items.aval(j).pk) == j)
+// the delete log is exactly as before
+//@ pred (p *ECache[PK, K, V]) logKept() = p.onDeleteF.dlen == old(p.onDeleteF.dlen) && forall(i, int, i < old(p.onDeleteF.dlen) ==> p.onDeleteF.dk[i] == old(p.onDeleteF.dk[i]) && p.onDeleteF.dv[i] == old(p.onDeleteF.dv[i]))
+// the delete log grew by exactly the pair (pk, v)
+//@ pred (p *ECache[PK, K, V]) logged(pk PK, v V) = p.onDeleteF.dlen == old(p.onDeleteF.dlen) + 1 && p.onDeleteF.dk[old(p.onDeleteF.dlen)] == pk && p.onDeleteF.dv[old(p.onDeleteF.dlen)] == v && forall(i, int, i < old(p.onDeleteF.dlen) ==> p.onDeleteF.dk[i] == old(p.onDeleteF.dk[i]) && p.onDeleteF.dv[i] == old(p.onDeleteF.dv[i]))
+// every resident key other than k keeps value and relative recency
+//@ pred (p *ECache[PK, K, V]) restKept(k K) = forall(j, K, j != k ==> has(p.items.vals, j) == old(has(p.items.vals, j)) && (has(p.items.vals, j) ==> p.items.aval(j) == old(p.items.aval(j)) && p.items.aord(j) == old(p.items.aord(j))))
+// k is the most recently used entry
+//@ pred (p *ECache[PK, K, V]) newest(k K) = has(p.items.vals, k) && forall(j, K, j != k && has(p.items.vals, j) ==> p.items.aord(j) < p.items.aord(k))
+// e was the least recently used entry in the pre-state
+//@ pred (p *ECache[PK, K, V]) wasOldest(e K) = old(has(p.items.vals, e)) && forall(j, K, old(has(p.items.vals, j)) ==> old(p.items.aord(e)) <= old(p.items.aord(j)))
+
+//@ func (p *ECache[PK, K, V]) Remove(pk PK) bool
+//@   props C08 C11
+//@   requires p.ok()
+//@   modifies p.items.head, p.items.vals[*], each(n, *iterable.rlItem[K, pair[PK, V]], n.owner == p.items, n.refCnt, n.key, n.val, n.state, n.next, n.prev, n.owner), p.onDeleteF.dlen, p.onDeleteF.dk, p.onDeleteF.dv
+//@   ensures p.ok() && p.restKept(keyOf(p.mapToInnerKeyF, pk)) && !has(p.items.vals, keyOf(p.mapToInnerKeyF, pk)) && p.createNewF.calls == old(p.createNewF.calls)
+//@   ensures r0 == old(has(p.items.vals, keyOf(p.mapToInnerKeyF, pk)))
+//@   ensures r0 && p.onDeleteF != nil ==> p.logged(old(p.items.aval(keyOf(p.mapToInnerKeyF, pk)).pk), old(p.items.aval(keyOf(p.mapToInnerKeyF, pk)).v))
+//@   ensures !r0 && p.onDeleteF != nil ==> p.logKept()
+
+// nothing at all changed in the table
+//@ pred (p *ECache[PK, K, V]) allKept() = forall(j, K, has(p.items.vals, j) == old(has(p.items.vals, j)) && (has(p.items.vals, j) ==> p.items.aval(j) == old(p.items.aval(j)) && p.items.aord(j) == old(p.items.aord(j))))
+
+//@ func (p *ECache[PK, K, V]) GetOrCreate(pk PK) (V, error)
+//@   props C08 C11
+//@   requires p.ok()
+//@   modifies p.items.head, p.items.last, p.items.vals[*], p.inflight[*], each(n, *iterable.rlItem[K, pair[PK, V]], n.owner == p.items || n.owner == nil, n.refCnt, n.key, n.val, n.state, n.next, n.prev, n.owner, n.ord), p.onDeleteF.dlen, p.onDeleteF.dk, p.onDeleteF.dv, p.createNewF.calls
+//@   ensures p.ok()
+// hit: no create call, no delete callback, the entry becomes the most recent one
+//@   ensures old(has(p.items.vals, keyOf(p.mapToInnerKeyF, pk))) ==> r1 == nil && r0 == old(p.items.aval(keyOf(p.mapToInnerKeyF, pk)).v) && p.createNewF.calls == old(p.createNewF.calls) && (p.onDeleteF != nil ==> p.logKept()) && p.restKept(keyOf(p.mapToInnerKeyF, pk)) && p.newest(keyOf(p.mapToInnerKeyF, pk)) && p.items.aval(keyOf(p.mapToInnerKeyF, pk)) == old(p.items.aval(keyOf(p.mapToInnerKeyF, pk)))
+// miss: exactly one create call
+//@   ensures !old(has(p.items.vals, keyOf(p.mapToInnerKeyF, pk))) ==> p.createNewF.calls == old(p.createNewF.calls) + 1
+// failed creation changes nothing
+//@   ensures !old(has(p.items.vals, keyOf(p.mapToInnerKeyF, pk))) && r1 != nil ==> p.allKept() && (p.onDeleteF != nil ==> p.logKept())
+// successful creation: inserted as most recent ...
+//@   ensures !old(has(p.items.vals, keyOf(p.mapToInnerKeyF, pk))) && r1 == nil ==> p.newest(keyOf(p.mapToInnerKeyF, pk)) && p.items.aval(keyOf(p.mapToInnerKeyF, pk)).v == r0 && p.items.aval(keyOf(p.mapToInnerKeyF, pk)).pk == pk
+// ... below capacity nothing leaves
+//@   ensures !old(has(p.items.vals, keyOf(p.mapToInnerKeyF, pk))) && r1 == nil && old(len(p.items.vals)) < p.maxSize ==> p.restKept(keyOf(p.mapToInnerKeyF, pk)) && (p.onDeleteF != nil ==> p.logKept())
+// ... at capacity exactly one entry leaves, it is the least recently used one, and its pair is logged once
+//@   ensures !old(has(p.items.vals, keyOf(p.mapToInnerKeyF, pk))) && r1 == nil && old(len(p.items.vals)) == p.maxSize ==> len(p.items.vals) == p.maxSize
+//@   ensures !old(has(p.items.vals, keyOf(p.mapToInnerKeyF, pk))) && r1 == nil && old(len(p.items.vals)) == p.maxSize && p.onDeleteF != nil ==> p.onDeleteF.dlen == old(p.onDeleteF.dlen) + 1 && forall(i, int, i < old(p.onDeleteF.dlen) ==> p.onDeleteF.dk[i] == old(p.onDeleteF.dk[i]) && p.onDeleteF.dv[i] == old(p.onDeleteF.dv[i]))
+//@   ensures !old(has(p.items.vals, keyOf(p.mapToInnerKeyF, pk))) && r1 == nil && old(len(p.items.vals)) == p.maxSize ==> forall(j, K, old(has(p.items.vals, j)) && !has(p.items.vals, j) ==> p.wasOldest(j) && (p.onDeleteF != nil ==> p.onDeleteF.dk[old(p.onDeleteF.dlen)] == old(p.items.aval(j).pk) && p.onDeleteF.dv[old(p.onDeleteF.dlen)] == old(p.items.aval(j).v)))
+//@   ensures !old(has(p.items.vals, keyOf(p.mapToInnerKeyF, pk))) && r1 == nil && old(len(p.items.vals)) == p.maxSize ==> forall(j, K, j != keyOf(p.mapToInnerKeyF, pk) && has(p.items.vals, j) ==> old(has(p.items.vals, j)) && p.items.aval(j) == old(p.items.aval(j)) && p.items.aord(j) == old(p.items.aord(j)))
+//@   loop 1
+//@     invariant p.ok() && p.allKept() && k == keyOf(p.mapToInnerKeyF, pk) && p.createNewF.calls == old(p.createNewF.calls) && (p.onDeleteF != nil ==> p.logKept())
+//@     invariant p.maxSize == old(p.maxSize) && p.onDeleteF == old(p.onDeleteF) && p.createNewF == old(p.createNewF) && p.mapToInnerKeyF == old(p.mapToInnerKeyF) && p.items == old(p.items)
+
+// log entry i is the pair of a key that was resident in the pre-state
+//@ pred (p *ECache[PK, K, V]) isOldPair(pk PK, v V) = old(has(p.items.vals, keyOf(p.mapToInnerKeyF, pk))) && pk == old(p.items.aval(keyOf(p.mapToInnerKeyF, pk)).pk) && v == old(p.items.aval(keyOf(p.mapToInnerKeyF, pk)).v)
+//@ pred (p *ECache[PK, K, V]) logIsOld(i int) = p.isOldPair(p.onDeleteF.dk[i], p.onDeleteF.dv[i])
+
+//@ func (p *ECache[PK, K, V]) Clear() int
+//@   props C08 C11
+//@   devirt *iterable.mapIterator[K, pair[PK, V]]
+//@   requires p.ok()
+//@   modifies p.items.head, p.items.vals[*], each(n, *iterable.rlItem[K, pair[PK, V]], n.owner == p.items, n.refCnt, n.key, n.val, n.state, n.next, n.prev, n.owner), p.onDeleteF.dlen, p.onDeleteF.dk, p.onDeleteF.dv
+//@   ensures p.ok() && forall(j, K, !has(p.items.vals, j)) && r0 == old(len(p.items.vals)) && p.createNewF.calls == old(p.createNewF.calls)
+// every resident entry is passed to the delete callback exactly once: as many log entries as residents, each the pair of a resident, no key twice
+//@   ensures p.onDeleteF != nil ==> p.onDeleteF.dlen == old(p.onDeleteF.dlen) + r0 && forall(i, int, i < old(p.onDeleteF.dlen) ==> p.onDeleteF.dk[i] == old(p.onDeleteF.dk[i]) && p.onDeleteF.dv[i] == old(p.onDeleteF.dv[i]))
+//@   ensures p.onDeleteF != nil ==> forall(i, old(p.onDeleteF.dlen), p.onDeleteF.dlen, p.logIsOld(i))
+//@   ensures p.onDeleteF != nil ==> forall(i, old(p.onDeleteF.dlen), p.onDeleteF.dlen, forall(i2, i + 1, p.onDeleteF.dlen, keyOf(p.mapToInnerKeyF, p.onDeleteF.dk[i]) != keyOf(p.mapToInnerKeyF, p.onDeleteF.dk[i2])))
+//@   loop 1
+//@     invariant p != nil && p.items == old(p.items) && p.items.wf() && p.maxSize == old(p.maxSize) && p.onDeleteF == old(p.onDeleteF) && p.createNewF == old(p.createNewF) && p.mapToInnerKeyF == old(p.mapToInnerKeyF) && p.inflight == old(p.inflight) && forall(j, K, !has(p.inflight, j))
+//@     invariant it != nil && typeIs(it, *iterable.mapIterator[K, pair[PK, V]]) && cast(*iterable.mapIterator[K, pair[PK, V]], it).im == p.items && p.items.holds(cast(*iterable.mapIterator[K, pair[PK, V]], it).ptr)
+//@     invariant forall(n, *iterable.rlItem[K, pair[PK, V]], p.items.owns(n) ==> n.refCnt == ite(n == cast(*iterable.mapIterator[K, pair[PK, V]], it).ptr, 1, 0), n.owner)
+//@     invariant forall(j, K, has(p.items.vals, j) == (old(has(p.items.vals, j)) && old(p.items.aord(j)) >= cast(*iterable.mapIterator[K, pair[PK, V]], it).ptr.ord))
+//@     invariant forall(j, K, has(p.items.vals, j) ==> p.items.aval(j) == old(p.items.aval(j)) && p.items.aord(j) == old(p.items.aord(j)))
+//@     invariant 0 <= removed && removed == old(len(p.items.vals)) - len(p.items.vals) && p.createNewF.calls == old(p.createNewF.calls)
+//@     invariant p.onDeleteF != nil ==> p.onDeleteF.dlen == old(p.onDeleteF.dlen) + removed && forall(i, int, i < old(p.onDeleteF.dlen) ==> p.onDeleteF.dk[i] == old(p.onDeleteF.dk[i]) && p.onDeleteF.dv[i] == old(p.onDeleteF.dv[i]))
+//@     invariant p.onDeleteF != nil ==> forall(i, old(p.onDeleteF.dlen), p.onDeleteF.dlen, p.logIsOld(i))
+//@     invariant p.onDeleteF != nil ==> forall(i, old(p.onDeleteF.dlen), p.onDeleteF.dlen, !has(p.items.vals, keyOf(p.mapToInnerKeyF, p.onDeleteF.dk[i])))
+//@     invariant forall(j, K, has(p.items.vals, j) ==> old(has(p.items.vals, j)) && keyOf(p.mapToInnerKeyF, p.items.aval(j).pk) == j)
+//@     invariant p.onDeleteF != nil ==> forall(i, old(p.onDeleteF.dlen), p.onDeleteF.dlen, forall(i2, i + 1, p.onDeleteF.dlen, keyOf(p.mapToInnerKeyF, p.onDeleteF.dk[i]) != keyOf(p.mapToInnerKeyF, p.onDeleteF.dk[i2])))
+//@     invariant forall(j, K, old(has(p.items.vals, j)) ==> keyOf(p.mapToInnerKeyF, old(p.items.aval(j)).pk) == j)
